@@ -177,6 +177,14 @@ type Times struct {
 	N   int64          `parquet:"n"`
 }
 
+// NestedMaps: maps whose values are maps (the reader rebuilds them through a
+// scratch key/value pair reused from one entry to the next).
+type NestedMaps struct {
+	ID int32                       `parquet:"id"`
+	MM map[string]map[string]int32 `parquet:"mm"`
+	MO map[int32]map[string]*int64 `parquet:"mo,optional"`
+}
+
 // SliceDecimals: []byte fields mapped to FIXED_LEN_BYTE_ARRAY columns by a
 // decimal tag (the typed path copies them through a pooled scratch buffer; nil
 // slices stand for the zero value).
@@ -686,4 +694,5 @@ func init() {
 	register[Embedded]("Embedded")
 	register[Times]("Times")
 	register[SliceDecimals]("SliceDecimals")
+	register[NestedMaps]("NestedMaps")
 }
